@@ -1,5 +1,251 @@
+"""C08 - string metrics return true (weighted) edit distances in SciPy layout."""
 from .. import AnalysisBroken
+from ..libmodels import LIB_FACTS
+from ..rf import RFContext
+from ..rules import Equiv, canon_binders, canon_params, check_equiv, compare_function, std_rewrites, where_of
+from ..terms import NONE, const, get_arg, head, is_const, show, strip, strip_all, subst, walk
+
+CLAIMED = True
+LEVEL = "other"
+TECHNIQUE = "configuration check of the rapidfuzz calls (weight tuple order, operand order, dtype, cut-offs); value-provenance comparison of the metric classes with a specification; loop-nest enumeration form of the functional pdist / cdist (index ranges, counter, operand order, allocation size by rational-function equality)"
+TEXT = ("Decides that WeightedLevenshtein / TcrLevenshtein hand rapidfuzz the weight tuple (insertion, deletion, substitution) in rapidfuzz's documented order and take "
+        "the unit-weight shortcut only when all three are 1; that calc_cdist_matrix is process.cdist(anchors, comparisons, scorer=that scorer) with no narrow dtype "
+        "and no cut-off (no wrap-around for long strings); that calc_pdist_vector is squareform(checks=False) of the self cdist of one and the same argument; that "
+        "Levenshtein delegates both methods to a default-constructed WeightedLevenshtein; that the functional pdist enumerates i < j < m lexicographically with a "
+        "counter from 0 incremented once per pair (SciPy's condensed index m*i + j - (i+2)(i+1)/2 by DESIGN A.7), stores metric(strings[i], strings[j], **kwargs) "
+        "there and allocates m(m-1)/2 entries; cdist stores metric(A[i], B[j], **kwargs) at [i, j] of an (mA, mB) array. Grade B; rapidfuzz exactness is trusted.")
+NOTE = "Trusted: rapidfuzz process.cdist / Levenshtein.distance(weights=) (libmodels); scipy squareform layout (A.7). Not decided: the documented default dtype=np.uint8 of the functional helpers raising on distances > 255."
+
+L = "pyrepseq.metric.levenshtein."
+SPEC = '''
+class WeightedLevenshtein:
+    def __init__(self, insertion_weight=1, deletion_weight=1, substitution_weight=1):
+        if insertion_weight == 1 and deletion_weight == 1 and substitution_weight == 1:
+            self._scorer = RapidFuzzLevenshtein.distance
+        else:
+            self._scorer = lambda *args, **kwargs: RapidFuzzLevenshtein.distance(*args, **kwargs, weights=(insertion_weight, deletion_weight, substitution_weight))
+
+def calc_cdist_matrix(self, anchors, comparisons):
+    return process.cdist(anchors, comparisons, scorer=self._scorer)
+
+def calc_pdist_vector(self, instances):
+    return distance.squareform(self.calc_cdist_matrix(instances, instances), checks=False)
+
+def lev_cdist(self, anchors, comparisons):
+    return self._weighted_levenshtein.calc_cdist_matrix(anchors, comparisons)
+
+def lev_pdist(self, instances):
+    return self._weighted_levenshtein.calc_pdist_vector(instances)
+'''
+WIDE = {"numpy.int32", "numpy.int64", "numpy.uint32", "numpy.uint64", "numpy.float32", "numpy.float64", "builtins.int", "builtins.float"}
+
+
+def cdist_rewrite(t):
+    """process.cdist: 'workers' does not influence the result; a >= 32 bit dtype is as good as the default."""
+    if head(t) == "call" and strip(t[1]) == ("glob", "rapidfuzz.process.cdist"):
+        kws = []
+        for k, v in t[3]:
+            if k == "workers":
+                continue
+            if k == "dtype" and head(strip(v)) == "glob" and strip(v)[1] in WIDE:
+                continue
+            kws.append((k, v))
+        return ("call", t[1], t[2], tuple(kws))
+    return t
+
+
+def scorer_of(r, initq, specsrc=None):
+    """Final value of self._scorer after __init__ (a decision tree over the weights)."""
+    s = r.A.summary(initq)
+    key = ("@attr", ("param", "self"), "_scorer")
+    if key not in s.env:
+        raise AnalysisBroken(f"{initq}: self._scorer is never set (anchor vanished)")
+    return s, s.env[key]
+
+
+def check_scorer(r, rule, initq):
+    rep = r.rep
+    s, val = scorer_of(r, initq)
+    rep.analysed(initq)
+    import ast
+    tree = ast.parse(SPEC)
+    cls = tree.body[0]
+    from ..model import FuncInfo
+    from ..ssa import summarize
+    f = FuncInfo("<spec>.WeightedLevenshtein.__init__", "pyrepseq.metric.levenshtein", cls.body[0], None, None, "__init__")
+    sp = summarize(r.P, f, tag="spec")
+    spv = sp.env[("@attr", ("param", "self"), "_scorer")]
+    names = [p[0] for p in s.params]
+    need = ["insertion_weight", "deletion_weight", "substitution_weight"]
+    if not all(n in names for n in need):
+        raise AnalysisBroken(f"{initq}: weight parameters vanished")
+    eq = Equiv(rewrites=std_rewrites() + [canon_binders], modelled={"rapidfuzz.distance.Levenshtein.distance"})
+    check_equiv(rep, rule, initq, "scorer = rapidfuzz Levenshtein with weights=(insertion, deletion, substitution); the unweighted shortcut only when all three weights are 1",
+                strip_all(val), strip_all(spv), where_of(r.P, s.func, s.func.node), eq=eq, key="weight tuple")
+
+
+def check_pdist(r, rule):
+    """LNE form of the functional pdist."""
+    rep = r.rep
+    q = "pyrepseq.distance.pdist"
+    s = r.A.summary(q)
+    rep.analysed(q)
+    where = where_of(r.P, s.func, s.func.node)
+    pn = [p[0] for p in s.params]
+    strings, metric = ("param", pn[0]), ("param", pn[1])
+    stores = [e for e in s.events_of("setitem") if strip_all(e["obj"]) == strip_all(s.ret)]
+    if len(stores) != 1:
+        raise AnalysisBroken(f"{q}: expected one store into the condensed vector, found {len(stores)}")
+    e = stores[0]
+    w = where_of(r.P, s.func, e.node)
+    lps = [s.loops[l] for l in e.ctx.loops]
+    ctx = RFContext()
+    LEN = None
+    ok_pairs, found = False, ""
+    i = j = None
+    if len(lps) == 2 and all(head(strip(lp.iterable)) == "call" and strip(strip(lp.iterable)[1]) == ("glob", "builtins.range") for lp in lps):
+        (o, inn) = lps
+        oa, ia = strip(o.iterable)[2], strip(inn.iterable)[2]
+        olo, ohi = (const(0), oa[0]) if len(oa) == 1 else (oa[0], oa[1])
+        ilo, ihi = (const(0), ia[0]) if len(ia) == 1 else (ia[0], ia[1])
+        m = ctx.rf(ihi)
+        i, j = o.elem, inn.elem
+        c1 = ctx.rf(olo).is_const() and ctx.rf(olo).const_value() == 0
+        d = m - ctx.rf(ohi)
+        c2 = d.is_const() and d.const_value() in (0, 1)                    # range(m) or range(m - 1)
+        c3 = (ctx.rf(ilo) - ctx.rf(i)).is_const() and (ctx.rf(ilo) - ctx.rf(i)).const_value() == 1
+        LEN = ihi
+        ok_pairs = c1 and c2 and c3
+        found = f"for i in range({show(olo, 10)}, {show(ohi, 40)}): for j in range({show(ilo, 40)}, {show(ihi, 40)})"
+    elif len(lps) == 1 and head(strip(lps[0].iterable)) == "call" and strip(strip(lps[0].iterable)[1]) == ("glob", "builtins.enumerate"):
+        it = strip(strip(lps[0].iterable)[2][0])
+        if head(it) == "call" and strip(it[1]) == ("glob", "itertools.combinations") and is_const(it[2][1], 2) and head(strip(it[2][0])) == "call" and strip(strip(it[2][0])[1]) == ("glob", "builtins.range"):
+            LEN = strip(it[2][0])[2][0]
+            i, j = ("item", ("item", lps[0].elem, 1), 0), ("item", ("item", lps[0].elem, 1), 1)
+            ok_pairs = len(strip(it[2][0])[2]) == 1
+            found = show(lps[0].iterable, 80)
+    rep.ob(rule, q, ok_pairs, "pairs are enumerated as i < j < m in lexicographic order", w, expected="for i in range(0, m-1): for j in range(i+1, m)  (or enumerate(combinations(range(m), 2)))", found=found or "loop nest outside idiom", key="pdist pairs")
+    if not ok_pairs:
+        return
+    # m is the number of strings
+    lst = ("call", ("glob", "builtins.len"), (("call", ("glob", "builtins.list"), (strings,), ()),), ())
+    okm = strip_all(LEN) in (strip_all(lst), ("call", ("glob", "builtins.len"), (strings,), ()))
+    rep.ob(rule, q, okm, "m is the number of strings", w, expected="m = len(list(strings))", found=show(LEN, 40), key="pdist m")
+    # counter
+    idx = strip(e["index"])
+    okk, foundk = False, show(idx, 40)
+    if len(lps) == 2 and head(idx) == "phi":
+        name = idx[2]
+        inn, o = lps[1], lps[0]
+        upd_in = ctx.rf(inn.update.get(name, NONE)) - ctx.rf(("phi", inn.lid, name))
+        init_o = strip(o.init.get(name, NONE))
+        okk = upd_in.is_const() and upd_in.const_value() == 1 and is_const(init_o, 0) and strip(o.update.get(name)) == ("after", inn.lid, name) and strip(inn.init.get(name)) == ("phi", o.lid, name)
+        incs = [x for x in s.events_of("augname") if x["name"] == name]
+        okk = okk and len(incs) == 1 and incs[0].seq > e.seq and not incs[0].ctx.guards
+        foundk = f"{name}: init {show(init_o, 10)}, +{upd_in.const_value() if upd_in.is_const() else '?'} per pair"
+    elif len(lps) == 1:
+        okk = idx == ("item", lps[0].elem, 0)
+    rep.ob(rule, q, okk, "the condensed index starts at 0 and is incremented once per pair, after the store (A.7: equals m*i + j - (i+2)(i+1)/2)", w, expected="k = 0; dm[k] = ...; k += 1", found=foundk, key="pdist counter")
+    # stored value
+    v = strip(e["value"])
+    okv = head(v) == "call" and len(v[2]) == 2 and strip(v[2][0]) == ("sub", strip(v[2][0])[1], i) and strip(v[2][1]) == ("sub", strip(v[2][1])[1], j) if head(v) == "call" and all(head(strip(a)) == "sub" for a in v[2]) else False
+    okc = okv and all(strip_all(strip(a)[1]) in (strip_all(("call", ("glob", "builtins.list"), (strings,), ())), strings) for a in v[2])
+    okkw = head(v) == "call" and any(k == "**" and strip(x)[0] == "param" for k, x in v[3])
+    fn = strip(v[1]) if head(v) == "call" else None
+    okf = fn is not None and head(fn) == "ite" and strip_all(fn[1]) == ("cmp", "is", metric, NONE) and strip(fn[3]) == metric and head(strip(fn[2])) == "glob" and "evenshtein" in strip(fn[2])[1]
+    rep.ob(rule, q, okv and okc, "entry k is metric(strings[i], strings[j]) - first operand the earlier string", w, expected="metric(strings[i], strings[j], **kwargs)", found=show(v, 100), key="pdist operands")
+    rep.ob(rule, q, okkw, "extra keyword arguments are forwarded to the metric", w, expected="**kwargs", found="forwarded" if okkw else "not forwarded", key="pdist kwargs")
+    rep.ob(rule, q, okf, "the default metric is the Levenshtein distance, a given metric is used as is", w, expected="levenshtein_distance if metric is None else metric", found=show(fn, 80), key="pdist metric")
+    # allocation size
+    alloc = strip(s.ret)
+    oka = head(alloc) == "call" and strip(alloc[1]) in (("glob", "numpy.empty"), ("glob", "numpy.zeros")) and alloc[2]
+    if oka:
+        size = ctx.rf(strip(alloc[2][0]))
+        mm = ctx.rf(LEN)
+        want = ctx.rf(("bin", "//", ("bin", "*", LEN, ("bin", "-", LEN, const(1))), const(2)))
+        oka = size.same(want)
+    rep.ob(rule, q, bool(oka), "the condensed vector has m(m-1)/2 entries", where, expected="np.empty(m*(m-1)//2)", found=show(alloc, 80), key="pdist size")
+    rep.ob(rule, q, not e.ctx.guards, "no pair is skipped", w, expected="unguarded store", found=f"{len(e.ctx.guards)} guard(s)", key="pdist unguarded")
+
+
+def check_cdist(r, rule):
+    rep = r.rep
+    q = "pyrepseq.distance.cdist"
+    s = r.A.summary(q)
+    rep.analysed(q)
+    pn = [p[0] for p in s.params]
+    A, B, metric = ("param", pn[0]), ("param", pn[1]), ("param", pn[2])
+    stores = [e for e in s.events_of("setitem") if strip_all(e["obj"]) == strip_all(s.ret)]
+    if len(stores) != 1:
+        raise AnalysisBroken(f"{q}: expected one store into the matrix, found {len(stores)}")
+    e = stores[0]
+    w = where_of(r.P, s.func, e.node)
+    lps = [s.loops[l] for l in e.ctx.loops]
+    LA = lambda p: (strip_all(("call", ("glob", "builtins.len"), (("call", ("glob", "builtins.list"), (p,), ()),), ())), ("call", ("glob", "builtins.len"), (p,), ()))
+    ok = len(lps) == 2
+    if ok:
+        for lp, p in zip(lps, (A, B)):
+            it = strip(lp.iterable)
+            ok = ok and head(it) == "call" and strip(it[1]) == ("glob", "builtins.range") and strip_all(it[2][-1]) in LA(p) and (len(it[2]) == 1 or is_const(it[2][0], 0))
+    rep.ob(rule, q, ok and not e.ctx.guards, "every (i, j) with i < mA, j < mB is visited", w, expected="for i in range(mA): for j in range(mB)", found="; ".join(show(lp.iterable, 40) for lp in lps), key="cdist ranges")
+    if not ok:
+        return
+    i, j = lps[0].elem, lps[1].elem
+    idx = strip(e["index"])
+    rep.ob(rule, q, idx == ("tuple", (i, j)), "the distance is stored at [i, j]", w, expected="dm[i, j]", found=show(idx, 40), key="cdist index")
+    v = strip(e["value"])
+    okv = head(v) == "call" and len(v[2]) == 2 and all(head(strip(a)) == "sub" for a in v[2]) and strip(strip(v[2][0])[2]) == i and strip(strip(v[2][1])[2]) == j \
+        and strip_all(strip(v[2][0])[1]) in (strip_all(("call", ("glob", "builtins.list"), (A,), ())), A) and strip_all(strip(v[2][1])[1]) in (strip_all(("call", ("glob", "builtins.list"), (B,), ())), B)
+    okkw = head(v) == "call" and any(k == "**" for k, x in v[3])
+    rep.ob(rule, q, okv, "entry [i, j] is metric(A[i], B[j])", w, expected="metric(stringsA[i], stringsB[j], **kwargs)", found=show(v, 100), key="cdist operands")
+    rep.ob(rule, q, okkw, "extra keyword arguments are forwarded to the metric", w, expected="**kwargs", found="forwarded" if okkw else "not forwarded", key="cdist kwargs")
+    alloc = strip(s.ret)
+    oks = head(alloc) == "call" and strip(alloc[1]) in (("glob", "numpy.empty"), ("glob", "numpy.zeros")) and alloc[2] and head(strip(alloc[2][0])) == "tuple" and len(strip(alloc[2][0])[1]) == 2 \
+        and strip_all(strip(alloc[2][0])[1][0]) in LA(A) and strip_all(strip(alloc[2][0])[1][1]) in LA(B)
+    rep.ob(rule, q, bool(oks), "the matrix has shape (mA, mB)", w, expected="np.empty((mA, mB))", found=show(alloc, 80), key="cdist shape")
 
 
 def run(r):
-    raise AnalysisBroken("rule set for C08 not implemented yet (fail-closed stub)")
+    rep = r.rep
+    rep.explanation = "The rapidfuzz call configuration of the metric classes and the loop nests of the functional helpers were analysed on the current tree."
+    rep.trust(LIB_FACTS["rapidfuzz.weights"], LIB_FACTS["rapidfuzz.cdist"], LIB_FACTS["squareform"], "DESIGN Appendix A.7 (condensed layout)")
+    check_scorer(r, "C08-W", L + "WeightedLevenshtein.__init__")
+    check_scorer(r, "C08-W", "pyrepseq.metric.tcr_metric.tcr_levenshtein.TcrLevenshtein.__init__")
+    eq = Equiv(rewrites=std_rewrites() + [cdist_rewrite], modelled={"rapidfuzz.process.cdist", "scipy.spatial.distance.squareform"})
+    compare_function(r, "C08-CD", L + "WeightedLevenshtein.calc_cdist_matrix", SPEC, "cdist[i, j] = scorer(anchors[i], comparisons[j]): anchors first, no narrow dtype, no cut-off", fname="calc_cdist_matrix", eq=eq, key="cdist call")
+    compare_function(r, "C08-PV", L + "WeightedLevenshtein.calc_pdist_vector", SPEC, "pdist vector = squareform(checks=False) of the self cdist of one and the same collection", fname="calc_pdist_vector", eq=eq, key="pdist vector")
+    compare_function(r, "C08-LV", L + "Levenshtein.calc_cdist_matrix", SPEC, "Levenshtein delegates calc_cdist_matrix to its WeightedLevenshtein", fname="lev_cdist", eq=eq, key="delegate cdist")
+    compare_function(r, "C08-LV", L + "Levenshtein.calc_pdist_vector", SPEC, "Levenshtein delegates calc_pdist_vector to its WeightedLevenshtein", fname="lev_pdist", eq=eq, key="delegate pdist")
+    s = r.A.summary(L + "Levenshtein.__init__")
+    v = s.env.get(("@attr", ("param", "self"), "_weighted_levenshtein"))
+    okd = v is not None and strip_all(v) == ("call", ("glob", L + "WeightedLevenshtein"), (), ())
+    rep.ob("C08-LV", L + "Levenshtein.__init__", okd, "the delegate is a default-constructed (unit weight) WeightedLevenshtein", where_of(r.P, s.func, s.func.node), expected="WeightedLevenshtein()", found=show(v, 60), key="delegate ctor")
+    check_pdist(r, "C08-LNE")
+    check_cdist(r, "C08-LNE")
+    for rule, fl in (("C08-W", 2), ("C08-CD", 1), ("C08-PV", 1), ("C08-LV", 3), ("C08-LNE", 12)):
+        rep.floor(rule, fl)
+
+
+from ..selftest import V  # noqa: E402
+
+LV = "pyrepseq/metric/levenshtein.py"
+DI = "pyrepseq/distance.py"
+VARIANTS = [
+    V("weights-ins-del-swapped", LV, "weights=(insertion_weight, deletion_weight, substitution_weight)", "weights=(deletion_weight, insertion_weight, substitution_weight)", rule="C08-W"),
+    V("pdist-operands-swapped", DI, "dm[k] = metric(strings[i], strings[j], **kwargs)", "dm[k] = metric(strings[j], strings[i], **kwargs)", rule="C08-LNE"),
+    V("cdist-uint8", LV, "scorer=self._scorer, workers=-1)", "scorer=self._scorer, workers=-1, dtype=np.uint8)", rule="C08-CD"),
+    V("pdist-kwargs-dropped", DI, "dm[k] = metric(strings[i], strings[j], **kwargs)", "dm[k] = metric(strings[i], strings[j])", rule="C08-LNE"),
+    V("squareform-transposed", LV, "pdist_vector = distance.squareform(pdist_matrix, checks=False)", "pdist_vector = distance.squareform(pdist_matrix.T, checks=False)", rule="C08-PV"),
+    V("pdist-inner-from-i", DI, "        for j in range(i + 1, m):\n            dm[k]", "        for j in range(i, m):\n            dm[k]", rule="C08-LNE"),
+    V("shortcut-when-any-weight-1", LV, "if insertion_weight == 1 and deletion_weight == 1 and substitution_weight == 1:", "if insertion_weight == 1 or deletion_weight == 1 and substitution_weight == 1:", rule="C08-W"),
+    V("cdist-anchors-second", LV, "return process.cdist(anchors, comparisons, scorer=self._scorer, workers=-1)", "return process.cdist(comparisons, anchors, scorer=self._scorer, workers=-1)", rule="C08-CD"),
+    V("cdist-score-cutoff", LV, "scorer=self._scorer, workers=-1)", "scorer=self._scorer, workers=-1, score_cutoff=255)", rule="C08-CD"),
+    V("counter-before-store", DI, "            dm[k] = metric(strings[i], strings[j], **kwargs)\n            k += 1", "            k += 1\n            dm[k - 1 if k > 1 else 0] = metric(strings[i], strings[j], **kwargs)", rule="C08-LNE"),
+    V("pdist-size-off", DI, "dm = np.empty((m * (m - 1)) // 2, dtype=dtype)", "dm = np.empty((m * (m + 1)) // 2, dtype=dtype)", rule="C08-LNE"),
+    V("cdist-transposed-store", DI, "            dm[i, j] = metric(stringA[i], stringB[j], **kwargs)", "            dm[i, j] = metric(stringA[j], stringB[i], **kwargs)", rule="C08-LNE"),
+    V("levenshtein-weighted-delegate", LV, "        self._weighted_levenshtein = WeightedLevenshtein()", "        self._weighted_levenshtein = WeightedLevenshtein(1, 1, 2)", rule="C08-LV"),
+    V("squareform-checks-default", LV, "distance.squareform(pdist_matrix, checks=False)", "distance.squareform(pdist_matrix)", rule="C08-PV"),
+    V("silent-wide-dtype", LV, "scorer=self._scorer, workers=-1)", "scorer=self._scorer, workers=-1, dtype=float)", expect="silent"),
+    V("silent-outer-range-m", DI, "    for i in range(0, m - 1):\n        for j in range(i + 1, m):\n            dm[k]", "    for i in range(m):\n        for j in range(i + 1, m):\n            dm[k]", expect="silent"),
+    V("silent-single-worker", LV, "scorer=self._scorer, workers=-1)", "scorer=self._scorer, workers=1)", expect="silent"),
+]
